@@ -243,13 +243,17 @@ def run(seed: int, params: dict, replay: dict | None = None) -> dict:
                 if back != v2:
                     viol.append({"signature": f"C15/{stack}/reference-resolves-to-other-content/{serializer}", "message": f"reference resolves to {repr(back)[:200]}, created from {repr(v2)[:200]}; {desc_conf}"})
                 # near-collisions: long common prefix, different tail (a key derived from a prefix or a truncation collides)
-                n_pre = rng.choice([threshold, threshold + rng.randint(1, 9), threshold * 2, 1024 + rng.randint(0, 7), 4096 + rng.randint(0, 7)])
-                if rng.random() < 0.5:
+                n_pre = rng.choice([threshold, threshold + rng.randint(1, 9), threshold * 2, 1024 + rng.randint(0, 7), 4096 + rng.randint(0, 7), 20000 + rng.randint(0, 7), 70000 + rng.randint(0, 7)])
+                where_ = rng.choice(["tail", "tail", "middle", "head"])
+                if where_ == "tail" and n_pre < 4000 and rng.random() < 0.5:
                     base = int("7" * n_pre)
                     near = [base * 10 + 1, base * 10 + 2]
                 else:
+                    # same length, one differing character at the head, in the middle or at the tail
                     pre = "".join(rng.choice("xy") for _ in range(8)) * (n_pre // 8 + 1)
-                    near = [pre[:n_pre] + "A", pre[:n_pre] + "B"]
+                    pos = {"tail": n_pre - 1, "middle": n_pre // 2 + rng.randint(-3, 3), "head": rng.randint(0, 2)}[where_]
+                    pos = max(0, min(n_pre - 1, pos))
+                    near = [pre[:pos] + "A" + pre[pos + 1 : n_pre], pre[:pos] + "B" + pre[pos + 1 : n_pre]]
                 if dom == "json" or isinstance(near[0], str):
                     bump("probe.near_collision_pairs")
                     nk = [client.client_data_store.serialize(x) for x in near]
@@ -257,7 +261,7 @@ def run(seed: int, params: dict, replay: dict | None = None) -> dict:
                         for x, k_ in zip(near, nk):
                             back_ = app_.client_data_store.resolve(k_)
                             if back_ != x:
-                                viol.append({"signature": f"C15/{stack}/reference-resolves-to-other-content/near-collision/{serializer}", "message": f"two values with a common prefix of {n_pre} characters and different tails were stored; the {who} resolves the reference of {repr(x)[-12:]} to {repr(back_)[-12:]}; {desc_conf}"})
+                                viol.append({"signature": f"C15/{stack}/reference-resolves-to-other-content/near-collision/{serializer}", "message": f"two values of {n_pre} characters that differ in one character ({where_}) were stored; the {who} resolves the reference of {repr(x)[-12:]} to {repr(back_)[-12:]}; {desc_conf}"})
                 # adversarial re-splittings: the same character stream cut differently into keys and values
                 alpha = ["a", "b", "=", ";", '"', "\\", "1", ":", ",", " "]
 
